@@ -17,6 +17,9 @@ PROFILE = {
     # not belong to (the namespace argument forgotten = '/', or another namespace the same client is / was / will be
     # connected to) and calls with ids that have ended
     'stale_p': 0.22,
+    # session() blocks during which save_session() is called (same session / another namespace of the client / another
+    # client / a pair naming no session)
+    'session_during_p': 0.2,
 }
 
 STATS = collections.Counter()      # what the oracle saw (flushed into the evidence by run())
@@ -123,6 +126,55 @@ def oracle(cfg, trace, residue):
             elif not where:
                 no_such_session(op, im)
             continue
+        if k == 'session_block_save':
+            # "modifications made inside the session() context manager are persisted when the block exits": the block
+            # works on the dict it got at entry (E); whatever is saved meanwhile -- for this session, for another
+            # session of the same client, for another client -- the exit stores E with the block's modifications, and
+            # the other sessions hold exactly what was saved for them
+            sid, tgt = op['sid'], op['save']
+            where = [x for x, v in live.items() if v == sid and x[1] == op['ns']]
+            if not where:
+                no_such_session(op, im)
+                continue
+            twhere = [x for x, v in live.items() if v == tgt['sid'] and x[1] == tgt['ns']]
+            same = bool(twhere) and twhere[0] == where[0]
+            variant = ('same_session' if same else 'no_such_session' if not twhere else
+                       'other_namespace_of_the_same_client' if twhere[0][0] == where[0][0] else 'another_client')
+            stat('block_with_save_inside.' + variant)
+            stat('blocks_with_save_inside')
+            base = store.get(sid, {})
+            want = dict(base if isinstance(base, dict) else {})
+            if 'k0' in op:
+                want[op['k0']] = op['v0']
+            if twhere:
+                want[op['k']] = op['v']
+                if not same:
+                    store[tgt['sid']] = copy.deepcopy(tgt['v'])
+                    hist.setdefault(twhere[0], set()).add(tgt['sid'])
+            inherited = earlier_stored(where[0], sid) and sid_is_new_on(where[0], sid, trace)
+            hist.setdefault(where[0], set()).add(sid)
+            if (im['exc'] or None) != (None if twhere else 'KeyError'):
+                fails.append((None, 'a session() block on a live session in which save_session(%s, namespace=%r) [%s] was '
+                                    'called ended with %r' % (tgt['sid'], tgt['ns'], variant, im['exc'])))
+                store[sid] = copy.deepcopy(want)
+                continue
+            if im['exc']:
+                store[sid] = copy.deepcopy(want)       # judged by the reads that follow
+                continue
+            if not C.same_unordered(im['result'], want):
+                if inherited and sid not in store:
+                    fails.append((SIG, 'a new session id on a namespace re-connected on the same transport still holds '
+                                       'the previous session: stored %r, this session wrote %r' % (im['result'], want)))
+                    want = im['result']
+                else:
+                    fails.append((None, 'modifications made inside a session() block were not persisted when the block '
+                                        'exited: the block got %r at entry, set %s, and save_session(%s, %r, namespace=%r) '
+                                        '[%s] was called while it was open; after the exit the session holds %r instead '
+                                        'of %r' % (base, ', '.join('%s=%r' % kv for kv in (
+                                            [(op['k0'], op['v0'])] if 'k0' in op else []) + [(op['k'], op['v'])]),
+                                            tgt['sid'], tgt['v'], tgt['ns'], variant, im['result'], want)))
+            store[sid] = copy.deepcopy(want)
+            continue
         if k not in ('get_session', 'save_session', 'session_block'):
             continue
         sid = op['sid']
@@ -180,9 +232,10 @@ def sid_is_new_on(key, sid, trace):
 
 
 def nontrivial(cfg, trace):
-    saves = sum(1 for o, _, _ in trace if o['op'] in ('save_session', 'session_block'))
+    writes = ('save_session', 'session_block', 'session_block_save')
+    saves = sum(1 for o, _, _ in trace if o['op'] in writes)
     gets = sum(1 for o, _, _ in trace if o['op'] == 'get_session')
-    sids = set(o['sid'] for o, _, _ in trace if o['op'] in ('save_session', 'session_block'))
+    sids = set(o['sid'] for o, _, _ in trace if o['op'] in writes)
     if saves >= 2 and gets >= 2 and len(sids) >= 2:
         return hash(repr([o for o, _, _ in trace]))
     return None
@@ -194,7 +247,7 @@ def run(ctx):
     STATS.clear()
     S.run_cases(ctx, PROFILE, ctx.scale(150, 3000), 45, oracle=oracle, nontrivial=measure)
     for k, v in sorted(STATS.items()):
-        ctx.count('no_such_session.' + k, v)
+        ctx.count(k if k.startswith('block') else 'no_such_session.' + k, v)
     ctx.coverage['mismatched_sid_namespace_calls'] = {
         'rule': 'get_session / save_session / session() / nested session() with a (sid, namespace) pair that names no '
                 'live session: a live id with another namespace ("/" = argument omitted, or one the same client is / '
@@ -211,6 +264,15 @@ def run(ctx):
         'new_session_read_after_such_a_call': STATS['read_of_the_session_born_after_a_mismatched_call'],
         'new_session_read_after_such_a_call_outside_known_finding_region':
             STATS['read_of_the_session_born_after_a_mismatched_call.namespace_new_to_the_client'],
+    }
+    ctx.coverage['session_blocks_with_a_save_while_open'] = {
+        'rule': 'with session(sid, ns) as s: s[k0]=..; save_session(<target>, value); s[k]=..  -- target = the same '
+                'session, another namespace of the same client, another client, a pair naming no live session (the call '
+                'raises inside the block). Oracle: after the exit get_session(sid, ns) is the dict obtained at entry with '
+                'the block\'s modifications (the exit stores it over whatever was saved meanwhile), the other sessions '
+                'hold what was saved for them; model: getSession; saveSession; saveSession(entry dict + modifications)',
+        'blocks': STATS['blocks_with_save_inside'],
+        'by_target': {k.split('.', 1)[1]: v for k, v in sorted(STATS.items()) if k.startswith('block_with_save_inside.')},
     }
     ctx.coverage['rule'] = ('histories over connect(ns), save_session, get_session, session() blocks, namespace DISCONNECT, '
                             'disconnect(), transport loss, reconnect on the same or a new transport, for several clients and '
